@@ -100,15 +100,12 @@ Theorem C15_restoration_needs_finally : forall cc,
   fst (fst (exec_with cl cc (SBlock (BPrefix "p") [SRaise XBoom]) c0)) = c0.
 Proof. exact leaky_clause. Qed.
 
-(** Flagship, part B (partial): whole programs of nested cd / prefix / try blocks
-    around run and sudo calls with arbitrary keyword arguments, failing commands and
-    raises of every kind -- the arguments of [start] call by call (nothing for refused
-    calls), the final stacks, the exception that comes out -- are accepted by the
-    executable specification, provided no sudo call passes [watchers=None].  Missing:
-    exactly that case, where the statement is false ([C15_sudo_watchers_none_refuted],
-    F-C15b). *)
-Theorem C15_program_meets_spec_partial : forall cc prog,
-  guard_prog prog = true ->
+(** Flagship, part B (full strength, no side condition): whole programs of nested
+    cd / prefix / try blocks around run and sudo calls with arbitrary keyword
+    arguments, failing commands and raises of every kind -- the arguments of [start]
+    call by call (nothing for refused calls), the final stacks, the exception that
+    comes out -- are accepted by the executable specification. *)
+Theorem C15_program_meets_spec : forall cc prog,
   spec_ok_ctx cc prog (snd (fst (run_program cc prog))) (fst (fst (run_program cc prog)))
               (snd (run_program cc prog)) = true.
 Proof. exact program_meets_spec. Qed.
@@ -116,23 +113,12 @@ Proof. exact program_meets_spec. Qed.
 (** sudo wraps the same prefixed command with the prompt, [--preserve-env] naming the
     variables of the effective env option (keyword argument, else run.env) and the
     user flags -- below any nesting of blocks, with any further run keyword arguments. *)
-Theorem C15_sudo_wraps_prefixed_partial : forall cc fs cmd u k,
-  sudo_refuses k = false ->
+Theorem C15_sudo_wraps_prefixed : forall cc fs cmd u k,
   rejected (cc_run cc) k = None -> truthy (want (cc_run cc) k Dry) = false ->
   snd (fst (run_program cc (nest fs [SSudo cmd u k false])))
   = [Some (sudo_wrapped cc u k (composed fs cmd), want (cc_run cc) k Shell,
            generate_env (want (cc_run cc) k Env) (want (cc_run cc) k ReplaceEnv) (cc_parent cc))].
 Proof. exact sudo_wraps_prefixed. Qed.
-
-(** F-C15b: [run(..., watchers=None)] means "not given"; [sudo(..., watchers=None)]
-    raises TypeError ([list(None)]) and starts nothing. *)
-Theorem C15_sudo_watchers_none_refuted :
-  exists cc prog,
-    snd (run_program cc [SRun "ls" (mkKw (fun o => match o with Watchers => Some ONone | _ => None end) None []) false]) = None /\
-    run_program cc prog = (c0, [None], Some XType) /\
-    spec_ok_ctx cc prog (snd (fst (run_program cc prog))) (fst (fst (run_program cc prog)))
-                (snd (run_program cc prog)) = false.
-Proof. exact sudo_watchers_none_refuted. Qed.
 
 (** Non-vacuity. *)
 Example C15_example_interactions :
@@ -208,3 +194,13 @@ Theorem C15_before_fix_sudo_historical_refuted :
     = "sudo -S -p 'P:' whoami"%string /\
     sudo_wrapped cc u k prefixed = "sudo -S -p 'P:' --preserve-env='A' whoami"%string.
 Proof. exact sudo_before_fix_refuted. Qed.
+
+(** Before fix 2644606 an explicit [watchers=None] made sudo raise TypeError before
+    anything started (F-C15b); the witness is in corpus/C15 and now has to pass. *)
+Theorem C15_before_fix_sudo_watchers_none_historical_refuted :
+  exists cc k,
+    sudo_refused_before_fix k = true /\
+    expected_raise (cc_run cc) k false = None /\
+    run_program cc [SSudo "whoami" None k false]
+    = (c0, [Some ("sudo -S -p 'P:' whoami"%string, OStr "/bin/bash", [])], None).
+Proof. exact sudo_watchers_none_before_fix_refuted. Qed.
